@@ -41,6 +41,11 @@ pub enum Op {
     /// (its task's notifications fill the manager's 64-entry queue), then another peer chokes the client; then the
     /// manager runs again
     ManagerLate(u16, u16),
+    /// a connected peer sends its (valid) handshake a second time in the middle of the session
+    Rehandshake(u16),
+    /// like DeliverWhileOtherLeaves, but the other peer chokes the client instead of leaving: its Choke and the manager's
+    /// broadcast about the finished piece both wait for its task, which handles them in either order
+    DeliverWhileOtherChokes(u16, u16),
 }
 
 #[derive(Clone, Debug, Serialize, Deserialize)]
@@ -70,6 +75,8 @@ fn strategy() -> BoxedStrategy<Case> {
         2 => (any::<u16>(), any::<u16>()).prop_map(|(a, b)| Op::DeliverWhileOtherLeaves(a, b)),
         1 => any::<u16>().prop_map(Op::Disconnect),
         1 => (any::<u16>(), any::<u16>()).prop_map(|(a, b)| Op::ManagerLate(a, b)),
+        1 => any::<u16>().prop_map(Op::Rehandshake),
+        2 => (any::<u16>(), any::<u16>()).prop_map(|(a, b)| Op::DeliverWhileOtherChokes(a, b)),
     ];
     // scenario templates that reach deep states; random ops follow
     let template = prop_oneof![
@@ -85,10 +92,12 @@ fn strategy() -> BoxedStrategy<Case> {
         2 => Just(vec![Op::Join(0), Op::Join(0), Op::Unchoke(0), Op::Unchoke(65535), Op::DeliverWhileOtherLeaves(0, 0)]),
         // end game: two interested peers fetch the same pieces; one finishes first, the other's answer is already in flight
         1 => Just(vec![Op::Join(0), Op::Join(0), Op::Interested(0), Op::Interested(65535), Op::Unchoke(0), Op::Unchoke(65535)]),
+        // end game: two seeders fetch the same piece; one completes it while the other's Choke is still unread
+        2 => Just(vec![Op::Join(0), Op::Join(0), Op::Unchoke(0), Op::Unchoke(65535), Op::DeliverWhileOtherChokes(0, 0)]),
         // a peer in the middle of a download sends a second, empty bitfield and then announces pieces one by one
         1 => Just(vec![Op::Join(0), Op::Unchoke(0), Op::Bitfield(0, 1)]),
     ];
-    (prop_oneof![3 => 3usize..=16, 2 => 11usize..=16, 2 => 10usize..=12], prop_oneof![Just(1usize), 1usize..=64], template, vec(op, 0..80), any::<u64>())
+    (prop_oneof![6 => 3usize..=16, 4 => 11usize..=16, 4 => 10usize..=12, 1 => 17usize..=40], prop_oneof![Just(1usize), 1usize..=64], template, vec(op, 0..80), any::<u64>())
         .prop_map(|(pieces, piece_len, mut pre, ops, seed)| {
             pre.extend(ops);
             Case { pieces, piece_len, ops: pre, seed }
@@ -109,7 +118,7 @@ fn bits_from(seed: u64, n: usize) -> Vec<bool> {
         return v;
     }
     (0..n)
-        .map(|_| {
+        .map(|i| {
             x ^= x << 13;
             x ^= x >> 7;
             x ^= x << 17;
@@ -117,6 +126,8 @@ fn bits_from(seed: u64, n: usize) -> Vec<bool> {
                 0 => true,
                 1 => false,
                 2 => x % 4 == 0,
+                // nothing among the first eight pieces (the bitfield starts with a zero byte), dense after
+                4 => i >= 8 && x % 3 != 0,
                 _ => x % 3 != 0,
             }
         })
@@ -245,6 +256,8 @@ pub fn check_invariants(w: &World, net: &Net, inv: &mut Inv, what: &str) {
                     inv.fails.push(("request-for-nonexistent-piece".into(), format!("{}: {} asked for piece {}", what, rp.addr, i)));
                 } else if !rp.advertised[i] {
                     inv.fails.push(("request-for-unadvertised-piece".into(), format!("{}: {} was asked for piece {} it never advertised", what, rp.addr, i)));
+                    // the same observation is a violation of C13's first clause (the pick is a piece the peer advertises)
+                    inv.fails.push(("c13-picked-piece-the-peer-never-advertised".into(), format!("{}: {} was asked for piece {} it never advertised", what, rp.addr, i)));
                 } else if inv.have_seen[i] {
                     // was it already owned when the assignment was made?
                     let assigned_while_owned = w
@@ -326,7 +339,7 @@ pub fn check_c13_only(c: &Case) -> Outcome {
 /// argument bytes per op, up to 120 ops.
 pub fn case_from_bytes(data: &[u8]) -> Case {
     let mut r = crate::gen::ByteReader::new(data);
-    let pieces = 3 + r.below(14);
+    let pieces = 3 + r.below(38);
     let piece_len = if r.bool() { 1 } else { 1 + r.below(64) };
     let seed = r.u16() as u64;
     let mut ops = vec![];
@@ -346,13 +359,19 @@ pub fn case_from_bytes(data: &[u8]) -> Case {
             16 => Op::DeliverCancelled(r.ix()),
             17 => Op::DeliverAllPeersAtOnce,
             18 => {
-                if r.bool() {
-                    Op::Wait
-                } else {
-                    Op::DeliverWhileOtherLeaves(r.ix(), r.ix())
+                match r.below(3) {
+                    0 => Op::Wait,
+                    1 => Op::DeliverWhileOtherLeaves(r.ix(), r.ix()),
+                    _ => Op::DeliverWhileOtherChokes(r.ix(), r.ix()),
                 }
             }
-            19 if r.bool() => Op::ManagerLate(r.ix(), r.ix()),
+            19 if r.bool() => {
+                if r.bool() {
+                    Op::ManagerLate(r.ix(), r.ix())
+                } else {
+                    Op::Rehandshake(r.ix())
+                }
+            }
             _ => Op::Disconnect(r.ix()),
         };
         ops.push(op);
@@ -522,6 +541,25 @@ pub fn check_all(c: &Case) -> Outcome {
                             classes.push("disconnect-while-assigned");
                         }
                     }
+                    Op::DeliverWhileOtherChokes(a, b) => {
+                        let with_req: Vec<usize> = live.iter().copied().filter(|p| !net.peers[*p].view.outstanding.is_empty()).collect();
+                        if with_req.len() >= 2 {
+                            let pa = with_req[idx(*a, with_req.len())];
+                            let others: Vec<usize> = with_req.iter().copied().filter(|p| *p != pa).collect();
+                            let pb = others[idx(*b, others.len())];
+                            let same = net.peers[pa].view.outstanding.front().map(|r| r.0) == net.peers[pb].view.outstanding.front().map(|r| r.0);
+                            if same {
+                                classes.push("fetcher-chokes-as-the-other-completes-the-same-piece");
+                            }
+                            let cb = net.peers[pb].conn;
+                            w.frozen.insert(cb);
+                            net.choke(w, pb);
+                            net.answer(w, pa, 0);
+                            net.observe(w).await;
+                            w.frozen.remove(&cb);
+                            classes.push("choke-while-assigned");
+                        }
+                    }
                     Op::DeliverCancelled(p) => {
                         let with_c: Vec<usize> = live.iter().copied().filter(|p| !net.peers[*p].view.cancelled_pending.is_empty()).collect();
                         if !with_c.is_empty() {
@@ -530,6 +568,12 @@ pub fn check_all(c: &Case) -> Outcome {
                             let data = net.t.piece(i as usize)[b as usize..(b + l) as usize].to_vec();
                             w.send_frame(net.peers[p].conn, &crate::refmodel::wire::RFrame::Piece(i, b, data));
                             classes.push("late-block-after-cancel");
+                        }
+                    }
+                    Op::Rehandshake(p) => {
+                        if let Some(p) = pick(*p) {
+                            net.handshake(w, p);
+                            classes.push("handshake-repeated-mid-session");
                         }
                     }
                     Op::ManagerLate(a, b) => {
@@ -622,7 +666,7 @@ pub fn check_all(c: &Case) -> Outcome {
 pub fn def() -> PropDef {
     PropDef {
         id: "C12",
-        rule: "up to 5 scripted remote peers and 3-16 single-block pieces (1-64 bytes) on the swarm runtime, driven through the real connection tasks so that only command sequences a task can emit reach the manager; a global history of up to 80 ops {join with a generated bitfield, have, choke, unchoke, unchoke twice, interested, not-interested, deliver next outstanding block, deliver all, disconnect, manager-late (the manager is not scheduled while one peer's 70 Interested messages fill its 64-entry command queue and another peer chokes the client; then it runs again)}, redundant and out-of-order events on purpose. After every barrier: Have is monotone; every Reserved(n>=1) piece is assigned to some connected peer that is not choking the client (by the last Choke/Unchoke it sent) and that has been sent a Request for it in its current assignment (one-directional: an unreserved fetched piece is not a violation); every Request names a piece the peer advertised and the client lacked when assigned; no manager step or task panics (a manager Err counts: the event loop expect()s it). Finally an honest peer holding everything joins and the download must complete. Non-trivial = >= 2 peers, a choke or disconnect while a piece was assigned, and >= 10 pieces missing at some point with 2 peers connected; distinct by hash of the case.",
+        rule: "up to 5 scripted remote peers and 3-16 single-block pieces (1-64 bytes) on the swarm runtime, driven through the real connection tasks so that only command sequences a task can emit reach the manager; a global history of up to 80 ops {join with a generated bitfield, have, choke, unchoke, unchoke twice, interested, not-interested, deliver next outstanding block, deliver all, disconnect, a repeated valid handshake mid-session, deliver-while-the-other-fetcher-chokes (its Choke and the manager's broadcast wait for the frozen task together), manager-late (the manager is not scheduled while one peer's 70 Interested messages fill its 64-entry command queue and another peer chokes the client; then it runs again)}, redundant and out-of-order events on purpose. After every barrier: Have is monotone; every Reserved(n>=1) piece is assigned to some connected peer that is not choking the client (by the last Choke/Unchoke it sent) and that has been sent a Request for it in its current assignment (one-directional: an unreserved fetched piece is not a violation); every Request names a piece the peer advertised and the client lacked when assigned; no manager step or task panics (a manager Err counts: the event loop expect()s it). Finally an honest peer holding everything joins and the download must complete. Non-trivial = >= 2 peers, a choke or disconnect while a piece was assigned, and >= 10 pieces missing at some point with 2 peers connected; distinct by hash of the case.",
         assumptions: &[
             "blocks are always correct in this check (corrupt data is C01's subject)",
             "KillReq is stepped as kill_peer only; respawn/re-announce is covered by the real-process layer",
@@ -632,7 +676,7 @@ pub fn def() -> PropDef {
             cases: |t| t.pick(12_000, 200_000),
             run: |ctx| run_proptest(ctx, "histories", strategy(), check),
             replay: |v| replay_case::<Case>(v, check),
-            min_class: &[(">=2-peers", 0.4196), ("choke-while-assigned", 0.2), ("disconnect-while-assigned", 0.1), (">=10-missing-with-2-peers", 0.15), ("redundant-unchoke", 0.2), ("redundant-choke", 0.1), ("block-delivered-while-choking", 0.02), ("repeated-bitfield", 0.1), ("late-block-after-cancel", 0.01), ("fetcher-leaves-as-the-other-completes-the-same-piece", 0.005), ("choke-while-assigned-and-manager-queue-full", 0.05)],
+            min_class: &[(">=2-peers", 0.4196), ("choke-while-assigned", 0.2), ("disconnect-while-assigned", 0.1), (">=10-missing-with-2-peers", 0.15), ("redundant-unchoke", 0.2), ("redundant-choke", 0.1), ("block-delivered-while-choking", 0.02), ("repeated-bitfield", 0.1), ("late-block-after-cancel", 0.01), ("fetcher-leaves-as-the-other-completes-the-same-piece", 0.005), ("choke-while-assigned-and-manager-queue-full", 0.05), ("handshake-repeated-mid-session", 0.15), ("fetcher-chokes-as-the-other-completes-the-same-piece", 0.01)],
         }],
     }
 }
